@@ -88,6 +88,19 @@ PROPS = {
   "rule": "the REAL binary: make-iso on generated trees (both modes, incl. unusable TITLE_ID) and decrypt redump/3k3y on generated encrypted images (valid and invalid tables, already-decrypted 3k3y) x output to a new path, to '-', to an existing file, to an existing directory; output bytes compared with the Lean model's image / plaintext and the crypto/aes reference; pre/post state of pre-existing targets; the decrypted output is then served from /PS3ISO and from /other and read back",
   "assumptions": ["TOCTOU window between the existence test and the open of the output file is outside the model", "kong's argument handling (existingdir, *os.File) is trusted"] + _CONN_ASSUME,
  },
+ "C04": {
+  "props_modules": ["Ps3.Props.C04"],
+  "needs_binary": True,
+  "streams": [{"name": "c04", "bad_obs": BAD_OBS + r"|proc=0|alive=0|by=bad|exit=(?!clean)|mem=(?!ok)|served=false|PANIC|CRASH", "timeout_quick": 400, "timeout_thorough": 3000},
+              {"name": "c03", "bad_obs": BAD_OBS}, {"name": "viso"}],
+  "rule": "c04: (A) hostile worlds served in-process and predicted response by response by the Lean model: PARAM.SFO wrong in 12 specific ways (truncated, bad magic, counts/offsets/lengths of 0, 2^31, 2^32-1, keys without terminator, bit flips) x TITLE_IDs of 0..40 bytes, region tables wrong in 9 ways (counts 0/1/256/2^32-1, truncated, overlapping, beyond the file, 255 regions) x 6 key-file situations, truncated 3k3y areas, names of 255 bytes / invalid UTF-8 / control characters, read geometries around every boundary incl. offsets >= 2^63 and lengths 2^32-1; "
+          "(B) the REAL binary on such a root under hostile byte streams (random, mutated valid sessions, extreme fields, structure-aware opens of every hostile object through every view, floods of 30 concurrent clients): after each the process must run, a fresh connection must be served, a bystander connection must still receive its exact bytes; "
+          "(C) the REAL binary's make-iso / decrypt on every hostile input: a normal exit, never a crash; (D) descriptor exhaustion (ulimit -n 40/100, 3x as many clients) and READ_FILE lengths of 512 MiB..2 GiB x 3..6 clients with the peak RSS of the process bounded. "
+          "c03: raw byte sessions with cuts at every boundary against the model; viso: read geometries of generated images, the model's checked read (readC) must not fault and must equal Image.read",
+  "assumptions": ["process survival, accepting, memory and descriptor behaviour are runtime behaviour: observed on the real binary, not proved",
+                  "the checked transcriptions in Model/Checked.lean are hand-written from the Go source; they are tied by the differential (a panic of the real code where the model has no fault is reported with the input)",
+                  "panics inside dependencies (afero, kong, x/text, stdlib) and stack or memory exhaustion are outside the model"] + _CONN_ASSUME,
+ },
  "C19": {
   "props_modules": ["Ps3.Props.C19"],
   "needs_binary": True,
@@ -172,6 +185,8 @@ LEVEL_TEXT = {
         "Tie: the full product of layouts (exhaustive in thorough) against an independent decision table.",
  "C20": "Theorems: a copy loop with any chunk sizes over a source whose reads are slices writes exactly that slice, hence make-iso output = the canonical image of C09 (the bytes the server announces and serves); decrypt output = h zero bytes ++ reference plaintext from h on (C10); a blanked watermark area is never recognised as 3k3y again (served back unchanged); the output-file decision never selects 'create' for an existing path and '-' is stdout. "
         "Tie: the real binary's files and stdout against the model and the crypto/aes reference, pre/post state of existing targets, served-back comparison.",
+ "C04": "Logic proved, runtime observed. Theorems on `Model/Checked.lean` (the Go index/slice arithmetic transcribed over Int with the runtime's bounds checks explicit): VirtualISO.read never faults for ANY image, member contents, offset >= 0 and buffer length (no well-formedness needed); clearRegionsData, every sector visited by decryptData for any read position/length/region, and clear3k3yData stay in bounds; the region-table allocation is at most 255 entries whatever count the file declares and index 0 is only touched on a non-empty table; directory-record and path-table size computations agree for every identifier the generator can make (no 'size mismatch' panic), the volume identifier and product id fit their fields, gameCode[:4] is guarded for every PARAM.SFO content; READ_CD offsets cannot overflow int64. "
+        "Tie: hostile worlds predicted by the model in-process; process survival, liveness, bystander integrity, tool exits, descriptor and memory limits observed on the real binary.",
  "C19": "Theorems over the Lean model of the configuration wiring (`effective`): a command-line flag wins over every file and variable; a value given in exactly one channel is the effective one; among files --config / PS3NETSRV_CONFIG_FILE > ./config.ini > user directory; a malformed value in the winning channel, or in the environment at all, stops start-up (never a silent fallback); one failing setting stops start-up. "
         "Tie: the real binary's observable behaviour for all 9 settings x 6 channels against the model.",
  "C12": "Logic proved, runtime observed. Theorems on the multi-connection model: with writing off, for any number of connections and ANY interleaving of their requests, each connection's response stream equals its stream when served alone (induction over the schedule; a step of one connection never touches another's state and leaves the world fixed), hence independence of what others send; every connection starts from the empty state; the shared buffer pool never hands one buffer to two connections under any get/put interleaving. "
